@@ -43,6 +43,12 @@ def ripemd_160(v, b):
 def verifyEd25519Signature(v, key, msg, sig):
     if len(key[1]) != 32 or len(sig[1]) != 64:
         raise Fail()
+    for enc in (key[1], sig[1][:32]):
+        pt = sigs._ed_decompress(enc)
+        if pt is not None and sigs._ed_eq(sigs._ed_mul(8, pt), (0, 1, 1, 0)):
+            # small-order key or R: RFC 8032 leaves room (cofactored vs cofactorless
+            # equation, optional rejection), so the oracle does not commit.
+            raise Undefined("ed25519 small-order point")
     return Bool(sigs.ed25519_verify(key[1], msg[1], sig[1]))
 
 
